@@ -2,7 +2,9 @@
    undeclared identifiers, undefined modules, port-count / port-name mismatches, procedural
    assignment to a net, continuous assignment to a register, registers assigned from more than
    one always block.  Verilog-2001 rules: an undeclared simple identifier is legal (implicit net)
-   only as a port connection or as the target of a continuous assignment. *)
+   only as a port connection or as the target of a continuous assignment.  Also: a name declared twice
+   with a net/variable type (or twice as a port) in one module, and an implicit (hence one-bit) net
+   connected to a port that the instantiated module declares as a vector. *)
 From Coq Require Import List NArith PArith Bool.
 From BM Require Import Vlog.Syntax.
 Import ListNotations.
@@ -15,7 +17,9 @@ Inductive lint_error :=
 | LPortName (m inst p : ident)
 | LProcAssignToNet (m x : ident)
 | LContAssignToReg (m x : ident)
-| LMultiDriver (m x : ident).
+| LMultiDriver (m x : ident)
+| LDuplicateDecl (m x : ident)
+| LImplicitVector (m x : ident).
 
 Definition mem (x : ident) (l : list ident) : bool := existsb (Pos.eqb x) l.
 
@@ -117,6 +121,21 @@ Definition undeclared_in (ids : list ident) (allowed_implicit : list ident) : li
 
 Definition find_module (n : ident) : option module := find (fun md => Pos.eqb (m_name md) n) D.
 
+(* the instantiated module declares this port with a range *)
+Definition port_is_vector (md : module) (p : ident) : bool :=
+  existsb (fun it => match it with
+                     | IDecl d => Pos.eqb (d_name d) p && match d_range d with Some _ => true | None => false end
+                     | _ => false end) (m_items md).
+Definition implicit_vector (md : module) (c : conns) (locals : list ident) : list lint_error :=
+  let check (p : ident) (e : expr) :=
+    match e with
+    | EId x => if negb (declared ds x) && negb (mem x locals) && port_is_vector md p then [LImplicitVector (m_name m) x] else []
+    | _ => [] end in
+  match c with
+  | CPos l => flat_map (fun pe => match snd pe with Some e => check (fst pe) e | None => [] end) (combine (m_ports md) l)
+  | CNamed l => flat_map (fun pe => match snd pe with Some e => check (fst pe) e | None => [] end) l
+  end.
+
 Fixpoint lint_items (fuel : nat) (locals : list ident) (its : list item) : list lint_error :=
   match fuel with
   | O => []
@@ -147,6 +166,7 @@ Fixpoint lint_items (fuel : nat) (locals : list ident) (its : list item) : list 
             undeclared_in (flat_map expr_ids es) (locals ++ flat_map bare es) ++
             match find_module mn with
             | Some md =>
+                implicit_vector md c locals ++
                 match c with
                 | CPos l => if Nat.eqb (length l) (length (m_ports md)) then []
                             else [LPortCount (m_name m) inst (length (m_ports md)) (length l)]
@@ -179,11 +199,28 @@ Fixpoint multi (seen : list ident) (blocks : list (list ident)) : list ident :=
   | b :: rest => filter (fun x => mem x seen) b ++ multi (b ++ seen) rest
   end.
 
+(* a name with two typed declarations (wire/reg/integer/real) or two port declarations *)
+Definition is_typek (ks : list dkind) : bool :=
+  existsb (fun k => match k with DWire | DReg | DInteger | DReal => true | _ => false end) ks.
+Fixpoint top_decls (its : list item) : list (ident * list dkind) :=
+  match its with
+  | [] => []
+  | IDecl d :: r => (d_name d, d_kinds d) :: top_decls r
+  | _ :: r => top_decls r
+  end.
+Definition duplicate_decls : list ident :=
+  let tds := top_decls (m_items m) in
+  nodup Pos.eq_dec
+    (filter (fun x => Nat.ltb 1 (length (filter (fun d => Pos.eqb (fst d) x && is_typek (snd d)) tds)) ||
+                      Nat.ltb 1 (length (filter (fun d => Pos.eqb (fst d) x && is_portk (snd d)) tds)))
+            (map fst tds)).
+
 Definition lint_module : list lint_error :=
   flat_map (fun p => if existsb (fun d => Pos.eqb (fst d) p && is_portk (snd d)) ds then [] else [LPortUndeclared (m_name m) p])
            (m_ports m) ++
   lint_items 50 [] (m_items m) ++
-  map (LMultiDriver (m_name m)) (nodup Pos.eq_dec (multi [] (always_writes 50 (m_items m)))).
+  map (LMultiDriver (m_name m)) (nodup Pos.eq_dec (multi [] (always_writes 50 (m_items m)))) ++
+  map (LDuplicateDecl (m_name m)) duplicate_decls.
 
 End Module.
 
@@ -201,4 +238,6 @@ Definition code (e : lint_error) : N * positive * positive * N * N :=
   | LProcAssignToNet m x => (6, m, x, 0, 0)
   | LContAssignToReg m x => (7, m, x, 0, 0)
   | LMultiDriver m x => (8, m, x, 0, 0)
+  | LDuplicateDecl m x => (9, m, x, 0, 0)
+  | LImplicitVector m x => (10, m, x, 0, 0)
   end%N.
